@@ -194,6 +194,18 @@ pub fn check_c07(ctx: &Ctx, case: &CsrCase<'_>, csr: &CertificateSigningRequest)
 						format!("parsed {:?} key {:?}", back.public_key.algorithm(), case.key.kp.algorithm()),
 					);
 				}
+				// second trip: a request written from the parsed parameters parses to the same parameters
+				let p2 = back.params.clone();
+				match crate::guard(|| p2.serialize_request(&case.key.kp).and_then(|c| CertificateSigningRequestParams::from_der(c.der()))) {
+					Ok(Ok(back2)) => {
+						ctx.count("eval:csr_second_trip");
+						if back2.params != back.params {
+							bad("parse-back-second-trip", format!("first {:?}\nsecond {:?}", back.params, back2.params));
+						}
+					},
+					Ok(Err(e)) => bad("parse-back-second-trip-refused", e.to_string()),
+					Err(p) => bad("parse-back-panic", p),
+				}
 			},
 		}
 	}
